@@ -102,6 +102,15 @@ func makeEC(g *mon.Rand, dir, label, curveName string, curve elliptic.Curve, hos
 		os.WriteFile(withParams, append(pem.EncodeToMemory(&pem.Block{Type: "EC PARAMETERS", Bytes: oid}), sec1Bytes...), 0o600)
 		m.keys = append(m.keys, keyFile{withParams, "EC PARAMETERS + SEC1 EC (openssl ecparam -genkey)", false})
 	}
+	// a key file that holds a second, unrelated key after the one that belongs to the certificate (a "keys.pem" kept
+	// for several certificates): the first parseable key is the documented choice
+	if sec1Bytes, err := os.ReadFile(sec1); err == nil {
+		other := gen.ECKey(g, curve)
+		oder, _ := x509.MarshalECPrivateKey(other)
+		twoKeys := filepath.Join(dir, label+"-two-keys.pem")
+		os.WriteFile(twoKeys, append(append([]byte{}, sec1Bytes...), pem.EncodeToMemory(&pem.Block{Type: "EC PRIVATE KEY", Bytes: oder})...), 0o600)
+		m.keys = append(m.keys, keyFile{twoKeys, "two SEC1 keys, the certificate's first", false})
+	}
 	if _, err := os.Stat(enc); err == nil {
 		m.keys = append(m.keys, keyFile{enc, "encrypted PKCS#8 EC", true})
 	}
